@@ -289,7 +289,7 @@ func c27Run(t *testing.T, cj []byte, res *vfResult) {
 		unfinished = s.Unfinished()
 		trace = append(trace, s.Trace...)
 		preempts = s.Preempts
-		s.Stop()
+		s.StopIf(outcome == "done")
 		time.Sleep(time.Millisecond) // let the free-running flush goroutines finish
 		closeErr = m.Close()
 		buf := make([]byte, 1500)
